@@ -30,7 +30,7 @@ func init() {
 	})
 }
 
-var c21Clones = []string{"printer.commentBefore", "printer.commentSizeBefore", "printer.commentsHaveNewline", "printer.containsLinebreak", "printer.flush", "printer.nextComment", "printer.setComment", "printer.setLineComment", "printer.writeCommentPrefix", "printer.writeCommentSuffix", "printer.writeWhitespace", "printer.writeIndent", "printer.writeByte", "trimmer.Write", "trimmer.resetSpace", "commonPrefix", "trimRight", "isBlank", "getDoc", "getLastComment", "Fprint", "Config.Fprint", "printer.recordLine", "printer.posFor", "printer.lineFor"}
+var c21Clones = []string{"printer.commentBefore", "printer.commentSizeBefore", "printer.commentsHaveNewline", "printer.containsLinebreak", "printer.flush", "printer.nextComment", "printer.setComment", "printer.setLineComment", "printer.writeCommentPrefix", "printer.writeCommentSuffix", "printer.writeWhitespace", "printer.writeIndent", "printer.writeByte", "trimmer.Write", "trimmer.resetSpace", "commonPrefix", "trimRight", "isBlank", "getDoc", "getLastComment", "Fprint", "Config.Fprint", "printer.recordLine", "printer.posFor", "printer.lineFor", "printer.writeString"}
 
 var c21Deviations = map[string]struct{ hash, why string }{
 	"printer.intersperseComments": {"8a51ca68", "go/printer's loop without Go 1.19's formatDocComment rewriting (XGo predates it): every comment of the group is written verbatim in list order"},
@@ -38,8 +38,7 @@ var c21Deviations = map[string]struct{ hash, why string }{
 	"stripCommonPrefix":           {"c5ba272e", "same algorithm spelled with strings.Index instead of strings.Cut (pre-Go 1.18 form)"},
 	"printer.printNode":           {"b3212dcc", "no initial p.print(pmode(0)) and returns nil instead of the source-position error of newer go/printer; the comment-list selection (CommentedNode range, File.Comments) is go/printer's"},
 	"Config.fprint":               {"8ae4f3fb", "no printer pool and no fixGoBuildLines pass; otherwise go/printer's: printNode, impliedSemi reset, final flush at infinity, trimmer/tabwriter"},
-	"printer.print":               {"796257f3", "adds a token.Pos argument case (set the position of the next item) and the panic text; the comment hand-over (flush before the next token) is go/printer's"},
-	"printer.writeString":         {"2ea39bd7", "adds the c\"…\" / py\"…\" string prefixes before the literal; positions and escaping are go/printer's"},
+	"printer.print":               {"8d876a0b", "adds a token.Pos argument case (set the position of the next item), the c\"…\"/py\"…\" prefix of a BasicLit's text, and the panic text; the comment hand-over (flush before the next token) is go/printer's"},
 }
 
 func runC21(c *core.Check) {
